@@ -252,6 +252,19 @@ def run_rt(spec, acc):
         captured.append(bytes(msg.dgram))
     iface._send = rec_send
     out = {}
+    # "arbitrary physical jitter": slow tasks on AppClock (GUI-style work, 1-5 ms
+    # each, every 10 ms) while the programs run on the other clocks
+    import random as _random
+    from sc3.base.functions import Function
+    jr = _random.Random(spec['seed'] + 11)
+    app_stop = [False]
+    app_tasks = [0]
+
+    def app_slow():
+        time.sleep(jr.uniform(0.001, 0.005))
+        app_tasks[0] += 1
+        return None if app_stop[0] else 0.01
+    clk.AppClock.sched(0, Function(app_slow))
     cases = list(range(cfg['first_case'], cfg['first_case'] + cfg['n']))
     try:
         for b0 in range(0, len(cases), cfg['batch']):
@@ -318,6 +331,8 @@ def run_rt(spec, acc):
                 acc.maxi('max_rt_lateness_s', r.max_late)
                 r.stop_clocks()
     finally:
+        app_stop[0] = True
+        acc.count('rt_slow_appclock_tasks', app_tasks[0])
         inj.stop()
         try:
             del iface._send
